@@ -23,6 +23,18 @@ gen_state_atomics() {
   timeout 60 "$bin" -in "$REPO/c2/state.go" -out "$VERIF/coq/Gen/StateAtomics.v"
 }
 
+# all properties: every integer constant of the packages the models depend on -> coq/Gen/Consts.v
+# (coq/Gen/ConstsTie.v equates the literals used in the models with these definitions)
+gen_consts() {
+  local src="$VERIF/tools/consts2v" bin="$VERIF/build/bin/consts2v"
+  if [ ! -x "$bin" ] || [ "$src/main.go" -nt "$bin" ]; then
+    (cd "$src" && timeout 120 go build -o "$bin.tmp$$" . && mv -f "$bin.tmp$$" "$bin") || {
+      echo "consts2v: the translator itself does not build" >&2; return 1; }
+  fi
+  timeout 60 "$bin" -repo "$REPO" -out "$VERIF/coq/Gen/Consts.v"
+}
+
 run gen_state_atomics
+run gen_consts
 
 exit $rc
